@@ -64,6 +64,9 @@ func c13Gen(r *Rand, tier string) interface{} {
 				st := c13Step{Kind: []string{"r", "w"}[r.Intn(2)], Key: r.Intn(3)}
 				if st.Kind == "w" {
 					st.Val = next()
+					if r.Chance(1, 6) {
+						st.Kind = "n" // the value nil: the scope then has the key, with no value (it hides the parent's)
+					}
 				}
 				op.Steps = append(op.Steps, st)
 				if !op.Locked {
@@ -287,6 +290,9 @@ func c13Sequential(in *c13In, env *Env) *Failure {
 			case "w":
 				ds.SetValue(c13Key(s.Key), s.Val)
 				model[op.Level][s.Key] = s.Val
+			case "n":
+				ds.SetValue(c13Key(s.Key), nil)
+				model[op.Level][s.Key] = 0 // has the key; c13Val reads nil as 0
 			case "r":
 				got := c13Val(ds.Value(c13Key(s.Key)))
 				if want := lookup(op.Level, s.Key); got != want {
